@@ -306,3 +306,138 @@ func c19SubstitutedPathsEscaped(p *Prog) *RuleResult {
 	r.Floor(1)
 	return r
 }
+
+// ---------------------------------------------------------------------------------------------
+// C19/R10 inputs-keyed-once.
+//
+// An output's `inputs` in the metafile is a JSON object keyed by input path; a path written twice is
+// a duplicate key and all but one of its byte counts are lost to every JSON parser. One input can
+// contribute several pieces to one chunk (a CSS file imported twice under different conditions, a
+// JS file split into several parts), so each writer has to group the pieces per input first. Rule:
+// the slice that the `"bytesInOutput"` writer ranges over is only ever appended to under a failed
+// comma-ok lookup in a map keyed by the same value (the first-occurrence idiom).
+func c19InputsKeyedOnce(p *Prog) *RuleResult {
+	r := NewRule("C19/R10 inputs-keyed-once", "each writer of an output's per-input byte counts ranges over a list of inputs built with the first-occurrence idiom (append only when a comma-ok lookup keyed by the input misses), so no input path is written twice")
+	n := 0
+	for _, fn := range p.ModuleFuncs() {
+		if pkgPathOf(fn) != modPath+"/internal/linker" || fn.Parent() == nil {
+			continue
+		}
+		var site *ssa.Call
+		eachInstr(fn, func(b *ssa.BasicBlock, in ssa.Instruction) {
+			c, ok := in.(*ssa.Call)
+			if !ok {
+				return
+			}
+			for _, a := range c.Call.Args {
+				if s, ok := constString(a); ok && strings.Contains(s, "\"bytesInOutput\"") {
+					site = c
+				}
+			}
+		})
+		if site == nil {
+			continue
+		}
+		n++
+		r.Instances++
+		key := FuncName(TopFunc(fn)) + " per-input byte counts are written once per input"
+		// innermost..outermost loops containing the site; take the outermost loop's ranged free variable
+		loops := naturalLoops(fn)
+		var header *ssa.BasicBlock
+		var body map[*ssa.BasicBlock]bool
+		for h, bd := range loops {
+			if bd[site.Block()] && (body == nil || len(bd) > len(body)) {
+				header, body = h, bd
+			}
+		}
+		if header == nil {
+			r.Fail(key, p.Pos(site.Pos()), "the writer is not inside a loop: cannot identify the list of inputs")
+			continue
+		}
+		// the free variable whose length bounds the loop: len(*fv) feeding the header's condition, found
+		// in the loop's preheader (range loops evaluate len once before the loop)
+		var fv *ssa.FreeVar
+		for _, pr := range header.Preds {
+			if body[pr] {
+				continue
+			}
+			for _, in := range pr.Instrs {
+				if c, ok := in.(*ssa.Call); ok {
+					if bi, ok := c.Call.Value.(*ssa.Builtin); ok && bi.Name() == "len" {
+						if ld, ok := c.Call.Args[0].(*ssa.UnOp); ok {
+							if f, ok := ld.X.(*ssa.FreeVar); ok {
+								fv = f
+							}
+						}
+					}
+				}
+			}
+		}
+		if fv == nil {
+			r.Fail(key, p.Pos(site.Pos()), "the loop around the writer does not range over a captured list: cannot identify the list of inputs")
+			continue
+		}
+		// the captured cell in the parent
+		var cell ssa.Value
+		parent := fn.Parent()
+		eachInstr(parent, func(b *ssa.BasicBlock, in ssa.Instruction) {
+			mc, ok := in.(*ssa.MakeClosure)
+			if !ok || mc.Fn != ssa.Value(fn) {
+				return
+			}
+			for i, f := range fn.FreeVars {
+				if f == fv && i < len(mc.Bindings) {
+					cell = mc.Bindings[i]
+				}
+			}
+		})
+		if cell == nil {
+			r.Fail(key, p.Pos(site.Pos()), "cannot resolve the captured list "+fv.Name())
+			continue
+		}
+		// every append stored into the cell is control dependent on a failed comma-ok lookup
+		appends, guarded := 0, 0
+		eachInstr(parent, func(b *ssa.BasicBlock, in ssa.Instruction) {
+			st, ok := in.(*ssa.Store)
+			if !ok || st.Addr != cell {
+				return
+			}
+			c, ok := st.Val.(*ssa.Call)
+			if !ok {
+				return
+			}
+			if bi, ok := c.Call.Value.(*ssa.Builtin); !ok || bi.Name() != "append" {
+				return
+			}
+			appends++
+			for _, ifi := range controlDepIfsTransitive(b) {
+				hit := false
+				sliceCond(ifi.Cond, func(v ssa.Value) bool {
+					if ex, ok := v.(*ssa.Extract); ok && ex.Index == 1 {
+						if lk, ok := ex.Tuple.(*ssa.Lookup); ok && lk.CommaOk {
+							hit = true
+						}
+					}
+					return true
+				})
+				if hit {
+					guarded++
+					break
+				}
+			}
+		})
+		switch {
+		case appends == 0:
+			r.Fail(key, p.Pos(site.Pos()), "the writer ranges over "+fv.Name()+", which is not built with the first-occurrence idiom (it is not appended to under a comma-ok lookup at all): an input that contributes several pieces to this output is written under the same JSON key several times and all but one of its byte counts are lost")
+		case guarded < appends:
+			r.Fail(key, p.Pos(site.Pos()), "the list "+fv.Name()+" is appended to without a failed comma-ok lookup keyed by the input: the same input can be listed twice")
+		default:
+			r.OK(key, true, fmt.Sprintf("ranges over %s, appended to only under a failed comma-ok lookup (%d append site(s))", fv.Name(), appends))
+		}
+	}
+	if !r.Anchor("writers of bytesInOutput in the linker", n >= 2) {
+		return r
+	}
+	r.Floor(2)
+	return r
+}
